@@ -6,8 +6,8 @@ import PmtilesModel.Proofs.ServerTransparent
 
 `Pm.Cache` (Model/Cache.lean) is the loop's bookkeeping with the code's exact structure; it is
 replayed event by event against the real server's hook log (totalSize, len(cache), list length,
-in-flight keys, waiters).  Which element an eviction removes is the code's LRU choice; the
-theorems below do not depend on it beyond "the back of the list".
+in-flight keys, waiters).  Which element an eviction removes is the code's LRU choice (hit: move to front, insert: push
+front, evict: from the back): `evicts_least_recent_first`, `newest_evicted_last`, `hit_moves_front`.
 -/
 namespace Pm.C09
 open Pm Pm.Cache
@@ -65,6 +65,29 @@ theorem hit_keeps (s : St) (k : Key) (e : Elem) (hc : cached s k = some e) :
     (onReq s k "").2 = .hit ∧ (onReq s k "").1.total = s.total ∧ (onReq s k "").1.cache = s.cache := by
   unfold onReq
   simp only [ne_eq, not_true_eq_false, if_false, hc, and_self]
+
+/-- a hit makes the element the most recently used one (front of the list) -/
+theorem hit_moves_front (s : St) (k : Key) (e : Elem) (hc : cached s k = some e) :
+    (onReq s k "").1.evict.head? = some e := by
+  unfold onReq
+  simp only [ne_eq, not_true_eq_false, if_false, hc, List.head?_cons]
+
+/-- **evictions take the least recently used first**: whatever is left of the list after the
+    eviction loop is a front segment of it — the victims are exactly its tail -/
+theorem evicts_least_recent_first (limit : Int) (fuel : Nat) (s : St) :
+    ∃ n, (evictLoop limit fuel s).evict = s.evict.take n :=
+  evictLoop_prefix limit fuel s
+
+/-- the directory that was just fetched is the last to go: after a successful response either the
+    cache was emptied altogether (the new element alone exceeds the limit) or the new element is
+    still there, at the front -/
+theorem newest_evicted_last (limit : Int) (s : St) (k : Key) (size : Nat) (vt : String) :
+    (onResp limit s k true size vt).evict ≠ [] →
+    (onResp limit s k true size vt).evict.head? = some ⟨k, size, vt⟩ := by
+  unfold onResp
+  simp only [Bool.not_true, Bool.false_eq_true, if_false]
+  intro h
+  exact evictLoop_front_survives limit _ _ ⟨k, size, vt⟩ (dropWaiters s k).evict rfl h
 
 /-- transparency at the protocol level is `C08.single_version` with a one-version history: the
     only version a response can be the answer of is the object itself -/
